@@ -628,9 +628,19 @@ carquet_status_t carquet_writer_write_batch(
 
     writer->column_values_written[column_index] += num_values;
 
-    /* Track rows (use column 0 as reference) */
+    /* Track rows (use column 0 as reference): in a repeated column a row
+     * starts at every entry with repetition level 0 */
     if (column_index == 0) {
-        writer->current_row_group_rows += num_values;
+        int64_t rows = num_values;
+        if (rep_levels && writer->columns[0].max_rep_level > 0) {
+            rows = 0;
+            for (int64_t i = 0; i < num_values; i++) {
+                if (rep_levels[i] == 0) {
+                    rows++;
+                }
+            }
+        }
+        writer->current_row_group_rows += rows;
     }
 
     return CARQUET_OK;
